@@ -342,7 +342,8 @@ def compare(ex, geo, grid, blockmap, S, P):
 def attach_boundary(T, np_, geo, grid, where, bvol, inp, nx, ny):
     """Attach inactive boundary blocks (volume bvol) to a grid made from a rectangular
     geometry: 'side' = one block beside every block of the x-max face (direction 1),
-    'top' = one block on top of the top block of every column (direction 3).
+    'top' = one block on top of the top block of every column (direction 3),
+    'bottom' = one block under the bottom block of every column (direction 3).
     Used by the C18 check and its replay (same code, symbolic or concrete numbers)."""
     rock = grid.rocktypelist[0]
     dxl = inp['dx'][-1]
@@ -371,5 +372,16 @@ def attach_boundary(T, np_, geo, grid, where, bvol, inp, nx, ny):
             b = T.t2block('tp%3d' % n, bvol, rock, centre=centre)
             grid.add_block(b)
             grid.add_connection(T.t2connection([blk, b], 3, [0.25, 0.5], col.area, -1.))
+    elif where == 'bottom':
+        # C18 round 4: one block UNDER the bottom block of every column (direction 3), centre below
+        # every rock block centre - e.g. a constant-temperature boundary under the model
+        lay = geo.layerlist[-1]
+        for col in geo.columnlist:
+            blk = grid.block[geo.block_name(lay.name, col.name)]
+            n += 1
+            centre = np_.array([blk.centre[0], blk.centre[1], blk.centre[2] - 1000])
+            b = T.t2block('bt%3d' % n, bvol, rock, centre=centre)
+            grid.add_block(b)
+            grid.add_connection(T.t2connection([blk, b], 3, [(lay.top - lay.bottom) / 2, 0.5], col.area, -1.))
     else:
         raise KeyError(where)
